@@ -101,29 +101,33 @@ theorem read_frame (c : Codec α) (r : Reader) (p rest : Bytes)
     (hl : p.length ≤ r.maxLen) (h32 : p.length < 4294967296) :
     ∃ r', r.read c = (decodeRes c p, r') ∧ r'.src.bytes = rest ∧ Benign r'.src.script ∧
       r'.maxLen = r.maxLen ∧ r'.buffer = p := by
-  obtain ⟨sc1, hb1, h1⟩ := Frame.fill_benign r.src.script hb 4 [] r.src.bytes
-  have hlen : 4 ≤ r.src.bytes.length := by rw [hs]; simp
-  have ht : List.take 4 r.src.bytes = be 4 p.length := by
-    rw [hs, frame, List.append_assoc, List.take_left' (be_length 4 _)]
-  have hd : List.drop 4 r.src.bytes = p ++ rest := by
-    rw [hs, frame, List.append_assoc, List.drop_left' (be_length 4 _)]
+  obtain ⟨⟨bytes, script⟩, buffer, maxLen⟩ := r
+  simp only at hs hb hl
+  subst hs
+  obtain ⟨sc1, hb1, h1⟩ := Frame.fill_benign script hb 4 [] (frame p ++ rest)
+  have hlen : 4 ≤ (frame p ++ rest).length := by simp; omega
+  have ht : List.take 4 (frame p ++ rest) = be 4 p.length := by
+    rw [frame, List.append_assoc, List.take_left' (be_length 4 _)]
+  have hd : List.drop 4 (frame p ++ rest) = p ++ rest := by
+    rw [frame, List.append_assoc, List.drop_left' (be_length 4 _)]
   simp only [hlen, if_true, List.nil_append, ht, hd] at h1
   obtain ⟨sc2, hb2, h2⟩ := Frame.fill_benign sc1 hb1 p.length [] (p ++ rest)
   have hlen2 : p.length ≤ (p ++ rest).length := by simp
   simp only [hlen2, if_true, List.nil_append, List.take_left' rfl, List.drop_left' rfl] at h2
-  have hnl : ¬ p.length > r.maxLen := by omega
-  refine ⟨{ r with src := ⟨rest, sc2⟩, buffer := p }, ?_, rfl, hb2, rfl, rfl⟩
+  have hnl : ¬ p.length > maxLen := by omega
+  refine ⟨⟨⟨rest, sc2⟩, p, maxLen⟩, ?_, rfl, hb2, rfl, rfl⟩
   simp only [Reader.read, h1, fromBe_be4 _ h32, hnl, if_false, h2]
 
 /-- at the end of the stream (zero bytes where a length prefix would start) the read reports
     a clean end. -/
 theorem reader_clean_end (c : Codec α) (r : Reader) (hs : r.src.bytes = []) (hb : Benign r.src.script) :
     ∃ r', r.read c = (.ok none, r') ∧ r'.src.bytes = [] ∧ Benign r'.src.script ∧ r'.maxLen = r.maxLen := by
-  obtain ⟨sc1, hb1, h1⟩ := Frame.fill_benign r.src.script hb 4 [] r.src.bytes
-  simp only [hs, List.length_nil, Nat.not_succ_le_zero, if_false, List.append_nil] at h1
-  refine ⟨{ r with src := ⟨[], sc1⟩ }, ?_, rfl, hb1, rfl⟩
-  rw [hs] at *
-  simp only [Reader.read, h1]
+  obtain ⟨⟨bytes, script⟩, buffer, maxLen⟩ := r
+  simp only at hs hb
+  subst hs
+  obtain ⟨sc1, hb1, h1⟩ := Frame.fill_benign script hb 4 [] []
+  simp at h1
+  exact ⟨⟨⟨[], sc1⟩, buffer, maxLen⟩, by simp only [Reader.read, h1], rfl, hb1, rfl⟩
 
 /-- the payloads are within the reader's maximum (and a `u32` can express their length). -/
 def Fits (maxLen : Nat) (ps : List Bytes) : Prop := ∀ p ∈ ps, p.length ≤ maxLen ∧ p.length < 4294967296
@@ -204,38 +208,39 @@ theorem reader_truncation (c : Codec α) (ps : List Bytes) (p t : Bytes) (r : Re
   rw [← m'] at hp
   rw [e']
   suffices h : (r'.read c).1 = .error (.io .unexpectedEof) by simp [Reader.readN, h]
+  obtain ⟨⟨bytes, script⟩, buffer, maxLen⟩ := r'
+  simp only at s' b' hp
+  subst s'
   obtain ⟨s, hsf⟩ := ht
   have hsne : s ≠ [] := by
     intro h; subst h; simp at hsf; exact hcut hsf
   rw [frame] at hsf
-  obtain ⟨sc1, hb1, h1⟩ := Frame.fill_benign r'.src.script b' 4 [] r'.src.bytes
-  rw [s'] at h1
+  obtain ⟨sc1, hb1, h1⟩ := Frame.fill_benign script b' 4 [] bytes
   rcases List.append_eq_append_iff.mp hsf with ⟨a', h4, hpa⟩ | ⟨c', h4, hsc⟩
-  · -- the whole prefix arrived (`be 4 len = t ++ a'`)
+  · -- the prefix did not arrive completely, or just so (`be 4 len = t ++ a'`, `s = a' ++ p`)
+    have hlt : bytes.length + a'.length = 4 := by
+      have := congrArg List.length h4; simp at this; omega
     by_cases ha : a' = []
     · -- cut exactly after the prefix
       subst ha
-      simp at h4 hpa
+      simp at h4 hpa hlt
       subst hpa
-      have hl4 : t.length = 4 := by rw [← h4]; simp
-      simp only [hl4, Nat.le_refl, if_true, List.nil_append, List.take_of_length_le (Nat.le_of_eq hl4),
-        List.drop_of_length_le (Nat.le_of_eq hl4)] at h1
+      subst h4
+      simp only [hlt, Nat.le_refl, if_true, List.nil_append, List.take_of_length_le (Nat.le_of_eq hlt),
+        List.drop_of_length_le (Nat.le_of_eq hlt)] at h1
       obtain ⟨sc2, hb2, h2⟩ := Frame.fill_benign sc1 hb1 s.length [] []
       have : ¬ s.length ≤ ([] : Bytes).length := by
         cases s with
         | nil => exact absurd rfl hsne
         | cons => simp
       simp only [this, if_false, List.append_nil] at h2
-      have hnl : ¬ s.length > r'.maxLen := by omega
-      simp only [Reader.read, h1, ← h4, fromBe_be4 _ hp.2, hnl, if_false, h2]
+      have hnl : ¬ s.length > maxLen := by omega
+      simp only [Reader.read, h1, fromBe_be4 _ hp.2, hnl, if_false, h2]
     · -- cut inside the prefix
-      have hl4 : t.length < 4 := by
-        have : (be 4 p.length).length = t.length + a'.length := by rw [h4]; simp
-        have : 0 < a'.length := List.length_pos_iff.mpr ha
-        simp at *; omega
-      have : ¬ 4 ≤ t.length := by omega
+      have : 0 < a'.length := List.length_pos_iff.mpr ha
+      have : ¬ 4 ≤ bytes.length := by omega
       simp only [this, if_false, List.nil_append] at h1
-      cases t with
+      cases bytes with
       | nil => exact absurd rfl hne
       | cons x xs => simp only [Reader.read, h1]
   · -- cut inside the payload (`t = be 4 len ++ c'`, `p = c' ++ s`)
@@ -245,10 +250,11 @@ theorem reader_truncation (c : Codec α) (ps : List Bytes) (p t : Bytes) (r : Re
       List.drop_left' (be_length 4 _)] at h1
     obtain ⟨sc2, hb2, h2⟩ := Frame.fill_benign sc1 hb1 p.length [] c'
     have : ¬ p.length ≤ c'.length := by
-      rw [hsc]; simp
-      exact List.length_pos_iff.mpr hsne
+      have := congrArg List.length hsc
+      have := List.length_pos_iff.mpr hsne
+      simp at *; omega
     simp only [this, if_false, List.nil_append] at h2
-    have hnl : ¬ p.length > r'.maxLen := by omega
+    have hnl : ¬ p.length > maxLen := by omega
     simp only [Reader.read, h1, fromBe_be4 _ hp.2, hnl, if_false, h2]
 
 /-- **No desynchronisation**: a frame whose payload does not decode yields the decode error
@@ -266,14 +272,19 @@ theorem reader_resync (c : Codec α) (r : Reader) (p rest : Bytes) (e : Err)
 theorem reader_alloc (c : Codec α) (r : Reader) :
     (r.read c).2.buffer = r.buffer ∨ (r.read c).2.buffer.length ≤ r.maxLen := by
   unfold Reader.read
-  split
-  · rename_i pre src h1
-    split
-    · exact .inl rfl
-    · rename_i hle
-      have hg := fill_got_length src.script (fromBe pre) [] src.bytes
-      split <;> rename_i h2 <;> rw [h2] at hg <;> simp [Fill.got] at hg <;> right <;> simp <;> omega
-  all_goals exact .inl rfl
+  generalize fill 4 [] r.src.bytes r.src.script = f1
+  obtain ⟨o1, src⟩ := f1
+  cases o1 with
+  | done pre =>
+    by_cases hle : fromBe pre > r.maxLen
+    · simp [hle]
+    · have hg := fill_got_length src.script (fromBe pre) [] src.bytes
+      dsimp only
+      generalize fill (fromBe pre) [] src.bytes src.script = f2 at hg ⊢
+      obtain ⟨o2, src2⟩ := f2
+      cases o2 <;> simp [hle, Fill.got] at hg ⊢ <;> omega
+  | short got => cases got <;> simp
+  | fail k got => simp
 
 /-- **An oversized length is rejected before any allocation**: the buffer is untouched, the
     error is `InvalidLen`, only the four prefix bytes are consumed. -/
@@ -281,13 +292,13 @@ theorem reader_oversize_rejected (c : Codec α) (r : Reader) (len : Nat) (rest :
     (hs : r.src.bytes = be 4 len ++ rest) (hb : Benign r.src.script)
     (hbig : len > r.maxLen) (h32 : len < 4294967296) :
     ∃ r', r.read c = (.error .invalidLen, r') ∧ r'.buffer = r.buffer ∧ r'.src.bytes = rest := by
-  obtain ⟨sc1, hb1, h1⟩ := Frame.fill_benign r.src.script hb 4 [] r.src.bytes
-  have hlen : 4 ≤ r.src.bytes.length := by rw [hs]; simp
-  simp only [hlen, if_true, List.nil_append] at h1
-  rw [hs, List.take_left' (be_length 4 _), List.drop_left' (be_length 4 _)] at h1
-  refine ⟨{ r with src := ⟨rest, sc1⟩ }, ?_, rfl, rfl⟩
-  rw [hs] at *
-  simp only [Reader.read, h1, fromBe_be4 _ h32, hbig, if_true]
+  obtain ⟨⟨bytes, script⟩, buffer, maxLen⟩ := r
+  simp only at hs hb hbig
+  subst hs
+  obtain ⟨sc1, hb1, h1⟩ := Frame.fill_benign script hb 4 [] (be 4 len ++ rest)
+  have hlen : 4 ≤ (be 4 len ++ rest).length := by simp
+  simp only [hlen, if_true, List.nil_append, List.take_left' (be_length 4 _), List.drop_left' (be_length 4 _)] at h1
+  exact ⟨⟨⟨rest, sc1⟩, buffer, maxLen⟩, by simp only [Reader.read, h1, fromBe_be4 _ h32, hbig, if_true], rfl, rfl⟩
 
 /-! ## the codec of the driver and the harness -/
 
@@ -306,23 +317,23 @@ theorem u64_headW (n : Nat) (h : n < 18446744073709551616) :
   · by_cases h2 : n ≤ 0xff
     · have a : ¬ n < 24 := by omega
       have b : n < 256 := by omega
-      simp [h1, h2, a, b, Width.ai, Width.bytes, be]
+      simp [h1, h2, a, b, Width.ai, Width.bytes, be] <;> rfl
     · by_cases h3 : n ≤ 0xffff
       · have a : ¬ n < 24 := by omega
         have b : ¬ n < 256 := by omega
         have d : n < 65536 := by omega
-        simp [h1, h2, h3, a, b, d, Width.ai, Width.bytes]
+        simp [h1, h2, h3, a, b, d, Width.ai, Width.bytes] <;> rfl
       · by_cases h4 : n ≤ 0xffffffff
         · have a : ¬ n < 24 := by omega
           have b : ¬ n < 256 := by omega
           have d : ¬ n < 65536 := by omega
           have e : n < 4294967296 := by omega
-          simp [h1, h2, h3, h4, a, b, d, e, Width.ai, Width.bytes]
+          simp [h1, h2, h3, h4, a, b, d, e, Width.ai, Width.bytes] <;> rfl
         · have a : ¬ n < 24 := by omega
           have b : ¬ n < 256 := by omega
           have d : ¬ n < 65536 := by omega
           have e : ¬ n < 4294967296 := by omega
-          simp [h1, h2, h3, h4, a, b, d, e, Width.ai, Width.bytes]
+          simp [h1, h2, h3, h4, a, b, d, e, Width.ai, Width.bytes] <;> rfl
 
 theorem typeLen_headW (n : Nat) (h : n < 18446744073709551616) :
     Enc.typeLen Enc.BYTES n = headW 2 (prefWidth n) n := by
@@ -333,22 +344,38 @@ theorem typeLen_headW (n : Nat) (h : n < 18446744073709551616) :
   · by_cases h2 : n ≤ 0xff
     · have a : ¬ n < 24 := by omega
       have b : n < 256 := by omega
-      simp [h1, h2, a, b, Width.ai, Width.bytes, be]
+      simp [h1, h2, a, b, Width.ai, Width.bytes, be] <;> rfl
     · by_cases h3 : n ≤ 0xffff
       · have a : ¬ n < 24 := by omega
         have b : ¬ n < 256 := by omega
         have d : n < 65536 := by omega
-        simp [h1, h2, h3, a, b, d, Width.ai, Width.bytes]
+        simp [h1, h2, h3, a, b, d, Width.ai, Width.bytes] <;> rfl
       · by_cases h4 : n ≤ 0xffffffff
         · have a : ¬ n < 24 := by omega
           have b : ¬ n < 256 := by omega
           have d : ¬ n < 65536 := by omega
           have e : n < 4294967296 := by omega
-          simp [h1, h2, h3, h4, a, b, d, e, Width.ai, Width.bytes]
+          simp [h1, h2, h3, h4, a, b, d, e, Width.ai, Width.bytes] <;> rfl
         · have a : ¬ n < 24 := by omega
           have b : ¬ n < 256 := by omega
           have d : ¬ n < 65536 := by omega
           have e : ¬ n < 4294967296 := by omega
-          simp [h1, h2, h3, h4, a, b, d, e, Width.ai, Width.bytes]
+          simp [h1, h2, h3, h4, a, b, d, e, Width.ai, Width.bytes] <;> rfl
+
+open Dec in
+theorem decVal_uint_head (w : Width) (n : Nat) (rest : Bytes) (hfit : w.fits n = true) :
+    decVal (headW 0 w n ++ rest) = .ok (.u n) rest := by
+  have hmax : n ≤ IntTy.u64.max := by have := Width.fits_lt w n hfit; simp [IntTy.u64]; omega
+  have hu := Dec.unsigned_head w n rest hfit
+  cases w
+  · simp [Width.fits] at hfit
+    have h1 : n % 256 = n := by omega
+    have h2 : n ≤ 24 := by omega
+    have h3 : n ≤ 27 := by omega
+    simp [Width.ai, Width.bytes] at hu
+    simp [decVal, datatype, typeOf, headW, Width.ai, Width.bytes, be, Dec.bind_run, h1, h2, h3, intAcc, hu, tryAs, hmax]
+  all_goals
+    simp [Width.ai, Width.bytes] at hu
+    simp [decVal, datatype, typeOf, headW, Width.ai, Width.bytes, Dec.bind_run, intAcc, hu, tryAs, hmax]
 
 end Minicbor.C14
